@@ -72,6 +72,11 @@ class Collector:
         del lst[self.MAX_PER_BUCKET:]
 
     def result(self):
+        from vf import hyp
+
+        if hyp.TIMEOUTS[0]:
+            self.skips["case_watchdog_timeout"] += hyp.TIMEOUTS[0]
+            hyp.TIMEOUTS[0] = 0
         return {
             "evaluations": self.evaluations,
             "nontrivial": sorted(self.nontrivial),
